@@ -11,6 +11,8 @@ import (
 	"sync"
 	"time"
 
+	"github.com/emmansun/gmsm/smx509"
+
 	"gitee.com/Trisia/gotlcp/dtlcp"
 	"gitee.com/Trisia/gotlcp/tlcp"
 	"verifharness/internal/pair"
@@ -162,6 +164,14 @@ func (l *tLink) client(cfg clientCfg) (endpoint, func() connState) {
 	if cfg.cache != nil {
 		c.SessionCache = cfg.cache.(tlcp.SessionCache)
 	}
+	if vpc, vc := cbFuncs(cfg.cb); vpc != nil || vc != nil {
+		if vpc != nil {
+			c.VerifyPeerCertificate = func([][]byte, [][]*smx509.Certificate) error { return vpc() }
+		}
+		if vc != nil {
+			c.VerifyConnection = func(tlcp.ConnectionState) error { return vc() }
+		}
+	}
 	conn := tlcp.Client(l.ce, c)
 	return conn, func() connState {
 		st := conn.ConnectionState()
@@ -242,6 +252,14 @@ func (l *dLink) client(cfg clientCfg) (endpoint, func() connState) {
 		InitialRetransmitTimeout: dRetransmit, MaxRetransmitTimeout: dRetransmit}
 	if cfg.cache != nil {
 		c.SessionCache = cfg.cache.(dtlcp.SessionCache)
+	}
+	if vpc, vc := cbFuncs(cfg.cb); vpc != nil || vc != nil {
+		if vpc != nil {
+			c.VerifyPeerCertificate = func([][]byte, [][]*smx509.Certificate) error { return vpc() }
+		}
+		if vc != nil {
+			c.VerifyConnection = func(dtlcp.ConnectionState) error { return vc() }
+		}
 	}
 	conn := dtlcp.Client(l.ce, l.se.LocalAddr(), c)
 	return conn, func() connState {
